@@ -195,6 +195,9 @@ fn run_scenario(
             let seed = derive_seed(master, &tag, index);
             let mut rng = Rng::new(seed);
             let case = s.generate(&mut rng, tier);
+            if std::env::var("VERIF_DEBUG").is_ok() {
+              eprintln!("run index={} seed={} case={}", index, seed, case);
+            }
             match run_guarded(s, &case) {
               Err(e) => {
                 st.harness_errors.push(format!("{} index={} seed={}: {}", tag, index, seed, e));
@@ -590,7 +593,13 @@ pub fn run_check(pc: &PropertyCheck, tier: Tier, verif_dir: &str) -> i32 {
   let mut real: Vec<&str> = Vec::new();
   let mut stub: Vec<&str> = Vec::new();
 
+  let only = std::env::var("VERIF_ONLY").ok();
   for s in &pc.scenarios {
+    if let Some(o) = &only {
+      if s.name() != o {
+        continue;
+      }
+    }
     let n = (total * s.weight() as u64 / wsum.max(1) as u64).max(1);
     let ts = Instant::now();
     let st = run_scenario(pc.id, s.as_ref(), n, tier, master, None);
